@@ -40,4 +40,9 @@ TEXTS["C14"] = {
     "note": "Real cmdutils, dsstate, consensus/raft snapshot helpers, pstoremgr from /repo, on temp directories. Starting a live peer on a saved snapshot is covered under C01's harness.",
     "technique": "property-based round-trip testing and a model-based state machine for backup rotation (rapid)",
 }
+TEXTS["C15"] = {
+    "level": "Generated-input search over all 14 component sections: 1-6 settings of a hand-written field specification are set to generated values (valid, boundary, zero, negative, wrong type, unparsable) in the section's default JSON, alone, through environment variables, or inside a full configuration file handled by config.Manager; oracle: no panic, default validates, accepted => validates, accepted non-zero well-formed values are shown by ToJSON, save/load/save fixpoint, display forms never contain the generated secret, private key or credentials. Exploration level.",
+    "note": "Real config code of every component from /repo. The field specification is the trusted independent oracle for 'no setting silently dropped'.",
+    "technique": "property-based testing against a field specification with round-trip/fixpoint oracles (rapid)",
+}
 PENDING = {}
